@@ -78,6 +78,7 @@ func init() {
 			RuleDef{Name: "CUR-SEEKOFF", What: "a failed underlying Seek leaves the recorded offset where the stream still is (added after a blind second seed round)", Floor: 1, Run: ruleSeekOff},
 			RuleDef{Name: "BASE-DROPS-DATA", What: "after a failed read the recycled block does not look like a valid block of the new base", Floor: 2, Run: ruleBaseDropsData},
 			RuleDef{Name: "PIPE-STALL", What: "the read-ahead loop examines the decompressor's error before deriving the next offset (a failed read-ahead must not park the worker while the reader waits)", Floor: 1, Run: rulePipeStall},
+			RuleDef{Name: "POOL-BARE", What: "every decompressor sent to the read-ahead pool is new or had its block taken by wait(): otherwise the end of a stream that cannot seek is a panic instead of io.EOF (shared with C01)", Floor: 4, Run: rulePoolBare},
 			RuleDef{Name: "LOCK-2", What: "the writer's error latch and the reader's cache field are accessed under their mutex (Close after wg.Wait exempt, structurally re-checked)", Floor: 8,
 				Run: func(c *Ctx, r *Rep, tier string) {
 					newLockAnalysis(c, []string{"bgzf"}).ruleGuarded(r, "LOCK-2", buildLockCfg(c, "bgzf"))
